@@ -17,6 +17,7 @@ package api
 
 import (
 	"bytes"
+	"context"
 	"errors"
 	"fmt"
 	"math/rand"
@@ -29,6 +30,7 @@ import (
 	"sync/atomic"
 	"time"
 
+	"github.com/gotid/god/api/httpx"
 	"github.com/gotid/god/lib/logx"
 	"verif.local/vk"
 )
@@ -807,7 +809,9 @@ func c02IsTimeoutResp(run *c02Run, resp *c02Resp, code int) (bool, string, strin
 	if resp.Status != code {
 		return false, "status", fmt.Sprintf("status %d, want %d", resp.Status, code)
 	}
-	if string(resp.Body) != c02TimeoutBody {
+	if c02ErrModeNow() == "ctx" && len(resp.Body) == 0 {
+		// the installed ctx-aware error handler renders the timeout itself (status only)
+	} else if string(resp.Body) != c02TimeoutBody {
 		return false, "body", fmt.Sprintf("body %q…(%d bytes), want %q", c02Head(resp.Body), len(resp.Body), c02TimeoutBody)
 	}
 	for _, h := range c02HandlerHeaderValues(run.script) {
@@ -833,7 +837,55 @@ type c02Ctx struct {
 	desc func(extra string) string
 }
 
+// c02ErrMode is the process-wide httpx error-handler configuration in force:
+// "" (none), "plain" (httpx.SetErrorHandler: a business handler answering 400 +
+// JSON for every error) or "ctx" (httpx.SetErrorHandlerCtx: a handler that maps
+// context.DeadlineExceeded to 503 and context.Canceled to 499 without a body and
+// everything else to 400 + JSON). Phases that install one run alone.
+var c02ErrMode atomic.Value
+
+func c02ErrModeNow() string {
+	if v, ok := c02ErrMode.Load().(string); ok {
+		return v
+	}
+	return ""
+}
+
+// c02WithErrMode installs the configuration, runs f, and restores the default.
+func c02WithErrMode(mode string, f func()) {
+	type bizErr struct {
+		Code int    `json:"code"`
+		Msg  string `json:"msg"`
+	}
+	switch mode {
+	case "plain":
+		httpx.SetErrorHandler(func(err error) (int, any) {
+			return http.StatusBadRequest, bizErr{Code: 10001, Msg: err.Error()}
+		})
+	case "ctx":
+		httpx.SetErrorHandlerCtx(func(_ context.Context, err error) (int, any) {
+			switch {
+			case errors.Is(err, context.DeadlineExceeded):
+				return http.StatusServiceUnavailable, nil
+			case errors.Is(err, context.Canceled):
+				return 499, nil
+			}
+			return http.StatusBadRequest, bizErr{Code: 10001, Msg: err.Error()}
+		})
+	}
+	c02ErrMode.Store(mode)
+	defer func() {
+		httpx.SetErrorHandler(nil)
+		httpx.SetErrorHandlerCtx(nil)
+		c02ErrMode.Store("")
+	}()
+	f()
+}
+
 func (c *c02Ctx) violate(sig string, run *c02Run, resp *c02Resp, format string, a ...any) {
+	if mode := c02ErrModeNow(); mode != "" {
+		sig += ":errorhandler-" + mode
+	}
 	d := fmt.Sprintf(format, a...)
 	extra := ""
 	if run != nil {
